@@ -137,7 +137,7 @@ def render(rng, specs):
 BAD_SELECTORS = ['a /b.x = 1', 'a/ b.x = 1', 'a/b .x = 1', 'a/b. x = 1', 'a//b.x = 1', '/a.x = 1', 'a/.x = 1', 'a..b = 1',
                  '.a.x = 1', 'a.b/c.x = 1', 'a/b/ = 1', 'a\\\n/b.x = 1', 'a/b\\\n.x = 1', 'a.\\\nb = 1', '1a.x = 1',
                  'a-b.x = 1', 'x = @a /f', 'x = @a/ f()', 'x = @a//f', 'x = %a /b', 'x = @f ()x', 'import a /b',
-                 'import a. b', 'from a import b.c', 'import a as b.c', 'from a. b import c', 'a.b:\n x = 1\n  y = 2\n']
+                 'import a. b', 'from a import b.c', 'import a as b.c', 'from a. b import c', 'from a/b import c', 'from a/b import c as d', 'import a/b.c', 'import a as b/c', 'a.b:\n x = 1\n  y = 2\n']
 
 
 def gen_cases(rng, tier, boost=1):
